@@ -15,7 +15,8 @@ RULE = ("PCBO / PCSO models: objective over 2-4 variables (dyadic coefficients, 
         "a '<' constraint, N = 4..6) built with boolean_var arithmetic. Oracle: constrained optimum f* by reference "
         "enumeration; solve_bruteforce; every arg-min row of the tables of H, to_pubo, to_puso, to_qubo, to_quso (<= 20 "
         "variables incl. ancillas) mapped through the real convert_solution and remove_ancilla_from_solution. "
-        "Non-trivial = some but not all assignments feasible; distinct = digest of (class, objective, constraints)")
+        "Non-trivial = some but not all assignments feasible; distinct = digest of (class, objective, constraints)"
+        " Also: constraint polynomials from the 14 branch shapes of C02, objectives with several high-degree terms sharing variable pairs over 5-6 variables, a sibling object (copy / constructor / arithmetic result) that receives a constraint excluding the optimum, user labels containing '__a' inside.")
 TIERS = {"quick": {"shards": 8, "cases": 90}, "thorough": {"shards": 16, "cases": 3000}}
 FLOOR_BASE = {"quick": 60, "thorough": 1500}    # case counts the floors below were calibrated for; the launcher scales them
 FORMS = ["self", "pubo", "puso", "qubo", "quso"]
